@@ -407,7 +407,7 @@ def run(ctx):
              'distinct = distinct (expression, date) pairs on expressions with a combinator or bounded validity, '
              'distinct rejected definitions, distinct (expression, search) triples',
         samples=[{'case': cases[len(CORPUS)], 'observed': obs[len(CORPUS)]}, {'case': cases[-1], 'observed': obs[-1]}],
-        distribution=dist,
+        distribution=dict(dist, neutral_number_cases=n // 20),
         traces_validated_against_impl=len(cases),
         comparison='bit-exact IEEE binary64 (Coq primitive floats) on every returned value',
     )
